@@ -255,7 +255,11 @@ func (v *Verifier) solveOne(o *Obligation, dir string, timeoutS int) *SolveResul
 	}
 	var atts []attempt
 	if o.ExpSat {
+		// vacuity guards are few and their answer (a model) can take several seconds in the large handlers: both a longer
+		// budget and a second solver, so that a loaded machine does not turn them into "unknown"
+		timeoutS *= 3
 		atts = append(atts, attempt{solvers[0].name, solvers[0], file, false})
+		atts = append(atts, attempt{solvers[1].name, solvers[1], file, false})
 	} else {
 		if o.Root != nil && o.N > 60 {
 			keep := o.Root.relevantAssumptions(o, 3, 2.0)
